@@ -103,9 +103,10 @@ def _build_model(e, c, a):
     if p is None:
         return err(Agg([], ty='failure::Error'))
     outcome = conf.get('build', 'ok')
-    if outcome == 'choose':
-        outcome = ('ok', 'err')[e.choose(2)]
     no = len(conf['log'])
+    limit = conf.get('choose_limit')
+    if outcome == 'choose':
+        outcome = ('ok', 'err')[e.choose(2)] if limit is None or no < limit else 'ok'
     if outcome == 'err' or (isinstance(outcome, (set, list, tuple)) and no in outcome):
         conf['log'].append({'problem': p, 'result': 'err'})
         return err(Agg([], ty='failure::Error'))
@@ -116,7 +117,7 @@ def _build_model(e, c, a):
         if int(y) not in distinct:
             distinct.append(int(y))
     order = conf.get('label_order', 'first')
-    if order == 'choose' and len(distinct) > 1:
+    if order == 'choose' and len(distinct) > 1 and (limit is None or no < limit):
         perms = list(itertools.permutations(distinct))
         distinct = list(perms[e.choose(len(perms))])
     elif order == 'reversed':
